@@ -29,26 +29,34 @@ type setting struct {
 var settingKeys = [6]string{"clock_drift", "reference_clock_impact", "peer_clock_impact", "peer_clock_cutoff", "sync_timeout", "sync_interval"}
 
 var (
-	svcBin      string
-	svcBinTried bool
-	svcDir      string
+	svcBin        string
+	svcBinTried   bool
+	svcDir        string
+	svcHook       bool // timeservice_verif.go is part of the checkout
+	svcWiringHook bool // timeservice_wiring_verif.go is part of the checkout
+	svcBuildLog   string
 )
 
-// serviceBinary builds the time service with the verification hook; "" when
+// serviceBinary builds the time service with the verification hooks; "" when
 // the hook file is not part of the checkout (the configuration cases are then
-// skipped, e.g. in a scratch worktree made before the hook was committed).
+// skipped, e.g. in a scratch worktree made before the hook was committed) or
+// when the service does not build (reported as a failing sync.build case by
+// buildCase, not as a harness failure).
 func serviceBinary() string {
 	if svcBinTried {
 		return svcBin
 	}
 	svcBinTried = true
-	repo := os.Getenv("VERIF_REPO")
-	if repo == "" {
-		repo = "/repo"
-	}
+	repo := repoDir()
 	if _, err := os.Stat(filepath.Join(repo, "timeservice_verif.go")); err != nil {
 		fmt.Fprintf(os.Stderr, "c01: %s/timeservice_verif.go not present: configuration cases skipped\n", repo)
 		return ""
+	}
+	svcHook = true
+	if _, err := os.Stat(filepath.Join(repo, "timeservice_wiring_verif.go")); err == nil {
+		svcWiringHook = true
+	} else {
+		fmt.Fprintf(os.Stderr, "c01: %s/timeservice_wiring_verif.go not present: sync.clocks cases skipped\n", repo)
 	}
 	dir, err := os.MkdirTemp("", "c01cfg")
 	if err != nil {
@@ -60,7 +68,9 @@ func serviceBinary() string {
 	cmd.Dir = repo
 	out, err := cmd.CombinedOutput()
 	if err != nil {
-		panic(fmt.Sprintf("c01: building the time service with -tags verif failed: %v\n%s", err, out))
+		svcBuildLog = fmt.Sprintf("%v\n%s", err, out)
+		fmt.Fprintf(os.Stderr, "c01: building the time service with -tags verif failed: %s\n", svcBuildLog)
+		return ""
 	}
 	svcBin = bin
 	return bin
@@ -226,7 +236,7 @@ func scenarioOfConfig(r *lib.Rng, res cfgResult) *scenario {
 }
 
 func generateConfig(r *lib.Rng, n int) {
-	bin := serviceBinary()
+	bin := buildCase()
 	if bin == "" {
 		return
 	}
